@@ -6,5 +6,5 @@ mkdir -p $d
 git -C $wt diff -- aldor > $d/patch.diff
 echo "diffstat: $(git -C $wt diff --stat -- aldor | tail -1)"
 echo "suite: PASS=$(grep -c '^PASS' $wt/_demo/check.log) FAIL=$(grep -cE '^(FAIL|ERROR)' $wt/_demo/check.log) probe-refs=$(grep -c wt-probe $wt/_demo/check.log)"
-(cd $d && bash demo.sh >/tmp/$2.wt.log 2>&1; echo "demo on worktree: exit $?"; ALDOR_TREE=/repo bash demo.sh >/tmp/$2.repo.log 2>&1; echo "demo on /repo: exit $?")
-cd /verif && python3 tools/run_seeded.py seeded/$id 2>&1 | grep -E "exit|no check|violation|BROKEN" | cut -c1-260
+(cd $d && bash demo.sh >/tmp/$2.wt.log 2>&1; echo "demo on worktree: exit $?"; ALDOR_TREE=/tmp/wt-probe bash demo.sh >/tmp/$2.repo.log 2>&1; echo "demo on unchanged build (/tmp/wt-probe): exit $?")
+cd /verif && python3 tools/matrix.py -j 1 seeded/$id 2>&1 | cut -c1-260
